@@ -821,6 +821,33 @@ Definition export_cls (first : bool) (sep : byte) (rows : list (N * list num)) :
 Definition export_reg (first : bool) (sep : byte) (rows : list (list num * list num)) : list byte :=
   concat (map (fun r => line sep (map print_num (if first then fst r ++ snd r else snd r ++ fst r))) rows).
 
+(* exportSparseData (SparseData.h): one line per element, "label" then " index:value" for every STORED entry
+   (a dense vector stores every component, zeros included; a compressed vector its non-zeros), indices one-based.
+   Classification: the label is printed as 2*label-1 when the dataset has exactly two classes (oneMinusOne),
+   else as label+1, followed by one blank; regression: the single label component.  Values are tokens
+   (operator<< with the default precision 6 is outside the model). *)
+Definition print_int (z : Z) : list byte :=
+  match z with Zneg p => 45%N :: print_nat (Npos p) | _ => print_nat (Z.to_N z) end.
+
+Definition svm_entries (ps : list (N * num)) : list byte :=
+  concat (map (fun p => 32%N :: print_nat (fst p + 1) ++ 58%N :: print_num (snd p)) ps).
+
+Definition n_classes (ls : list N) : N := (1 + fold_left N.max ls 0)%N.       (* numberOfClasses *)
+
+Definition svm_out_label (binary : bool) (l : N) : Z :=
+  if binary then (2 * Z.of_N l - 1)%Z else (Z.of_N l + 1)%Z.
+
+Definition svm_cls_line (binary : bool) (r : N * list (N * num)) : list byte :=
+  print_int (svm_out_label binary (fst r)) ++ 32%N :: svm_entries (snd r).
+Definition svm_reg_line (r : num * list (N * num)) : list byte := print_num (fst r) ++ svm_entries (snd r).
+
+Definition export_svm_cls (rows : list (N * list (N * num))) : list byte :=
+  let binary := (n_classes (map fst rows) =? 2)%N in
+  concat (map (fun r => svm_cls_line binary r ++ [10%N]) rows).
+
+Definition export_svm_reg (rows : list (num * list (N * num))) : list byte :=
+  concat (map (fun r => svm_reg_line r ++ [10%N]) rows).
+
 (* ------------------------------------------------------------------------------------------------ *)
 (* well-formedness predicates of the property *)
 
